@@ -744,7 +744,8 @@ fn ci_patterns(rng: &mut Rng) -> (Vec<Vec<u8>>, Vec<u8>) {
     let n = rng.range(3, 6);
     let mut alpha: Vec<u8> = vec![];
     while alpha.len() < n {
-        let b = *rng.pick(&CI_POOL);
+        // (one symbol in six is any byte value at all)
+        let b = if rng.chance(1, 6) { rng.below(256) as u8 } else { *rng.pick(&CI_POOL) };
         if !alpha.contains(&b) {
             alpha.push(b);
         }
